@@ -42,13 +42,13 @@ CONSTANTS Pool,        \* entry points used by the public calls
           MaxLen,      \* history length
           EmitHist
 
-Own == {"plain", "caller", "main0", "bad_type", "calls_bad", "ct_good", "ct_bad", "ct_expr", "closure", "first",
+Own == {"plain", "caller", "main0", "bad_type", "calls_bad", "ct_good", "ct_bad", "ct_many", "ct_expr", "closure", "first",
         "use_generic", "mono", "use_mono", "Pt", "Pt.norm1", "Pt.__new__", "use_struct",
-        "ov_int", "ov_float", "over", "use_over", "loops", "n"}
+        "ov_int", "ov_float", "over", "use_over", "long_names", "loops", "n"}
 ASSUME Pool \subseteq Own /\ EntryOps \subseteq Pool
 
 Types    == {"Pt"}                      \* go to types_to_check_worklist
-Comptime == {"ct_good", "ct_bad"}       \* traced, body not examined by check()
+Comptime == {"ct_good", "ct_bad", "ct_many"}       \* traced, body not examined by check()
 \* definitions whose body check raises a GuppyError, with the diagnostic's title.  ct_expr evaluates
 \* `comptime(plain(1))`: calling a Guppy function from Python outside tracing is an error, whatever
 \* happened earlier in the session (no reference to `plain` is resolved by the engine)
@@ -63,13 +63,14 @@ BodyRefs(x)  == Tab([caller |-> <<"plain">>, main0 |-> <<"caller">>, calls_bad |
                      use_generic |-> <<"first">>, use_mono |-> <<"mono">>,
                      use_struct |-> <<"Pt", "Pt.__new__", "Pt.norm1">>,
                      use_over |-> <<"over", "ov_int", "ov_float">>], x)
-TraceRefs(x) == Tab([ct_good |-> <<"plain">>, ct_bad |-> <<"plain">>], x)
+TraceRefs(x) == Tab([ct_good |-> <<"plain">>, ct_bad |-> <<"plain">>, ct_many |-> <<"plain">>], x)
 \* (callee, instantiation tag) pairs compiled when x is lowered
 Calls(x) == Tab([caller |-> << <<"plain", 0>> >>, main0 |-> << <<"caller", 0>> >>,
                  use_generic |-> << <<"first", 0>> >>, use_mono |-> << <<"mono", 1>>, <<"mono", 2>> >>,
                  use_struct |-> << <<"Pt.__new__", 0>>, <<"Pt.norm1", 0>> >>,
                  use_over |-> << <<"ov_int", 0>>, <<"ov_float", 0>> >>,
-                 ct_good |-> << <<"plain", 0>> >>, ct_bad |-> << <<"plain", 0>> >>], x)
+                 ct_good |-> << <<"plain", 0>> >>, ct_bad |-> << <<"plain", 0>> >>,
+                 ct_many |-> << <<"plain", 0>> >>], x)
 
 Ops == {<<"check", d>> : d \in Pool} \cup {<<"compile", d>> : d \in Pool} \cup {<<"entry", d>> : d \in EntryOps}
 
